@@ -189,8 +189,9 @@ Definition back_edges_cost_positive : bool :=
 Lemma back_edges_positive : back_edges_cost_positive = true.
 Proof. vm_compute. reflexivity. Qed.
 
-Lemma table_max_value : table_max = 15.
-Proof. vm_compute. reflexivity. Qed.
+(* COST is a u8 *)
+Lemma table_max_u8 : table_max <= 255.
+Proof. apply Nat.leb_le. vm_compute. reflexivity. Qed.
 
 (* ---------- the abstract machine instantiated with boa's opcode bytes and COST table ---------- *)
 Section Boa.
